@@ -7,7 +7,7 @@ Ingredients
                in flight), indexed by a monitor id.
 * `MBody`    : an arbitrary coroutine body that may, besides really suspending (`yield y`),
                execute `await m.oob(d)` for any monitor `m` (a "system call" `Step.oob`).  The
-               three lines of `Monitor.oob` are `resolve`: state ≠ 1 → RuntimeError raised inside
+               lines of `Monitor.oob` are `resolve`: state = 0 → RuntimeError raised inside
                the body (the body's reaction is the `refused` continuation of the step),
                otherwise state := -1 and `d` is yielded.
 * `SBody`    : a coroutine running against the monitor cells (`resume : σ → Resume → Env → SRes σ`).
@@ -49,6 +49,14 @@ def rtRaisedOOB : Nat := 12      -- "coroutine raised OOBData"                (l
 def rtMonIgnoredGE : Nat := 13   -- "Monitor coroutine ignored GeneratorExit" (line 193)
 def rtNoOob : Nat := 14          -- "Coroutine did not await Monitor.oob()"   (line 205)
 
+/-- What travels upwards from a suspended coroutine: an ordinary awaitable/token (`plain`), or the
+    private `_OOBRequest(monitor, data)` object that `Monitor.oob` yields (monitor.py 50-59).  A body's
+    own suspensions are `Val`s (`Step.yield`), so a body cannot forge a request. -/
+inductive YV where
+  | plain (v : Val)
+  | req (m : MonId) (d : Val)
+deriving Repr, DecidableEq, Inhabited
+
 /-! ### bodies -/
 
 /-- One resumption of a body, run up to its next interaction with the outside.
@@ -70,7 +78,7 @@ structure MBody where
 
 /-- Result of resuming a coroutine that runs against the monitor cells. -/
 inductive SRes (σ : Type) where
-  | yield (y : Val) (s : σ) (env : Env)
+  | yield (y : YV) (s : σ) (env : Env)
   | ret (v : Val) (s : σ) (env : Env)
   | raise (e : Exc) (s : σ) (env : Env)
 
@@ -79,12 +87,13 @@ structure SBody where
   init : σ
   resume : σ → Resume → Env → SRes σ
 
-/-- `Monitor.oob` (lines 167-179) applied to the step of a body:
-    `if self.state != 1: raise RuntimeError`, `self.state = -1`, `return (yield data)`. -/
+/-- `Monitor.oob` (lines 179-196) applied to the step of a body:
+    `if self.state == 0: raise RuntimeError` (a left-over -1 is accepted), `self.state = -1`,
+    `return (yield _OOBRequest(self, data))`. -/
 def resolve {σ : Type} : Step σ → Env → SRes σ
-  | .yield y s, env => .yield y s env
+  | .yield y s, env => .yield (.plain y) s env
   | .oob m d s refused, env =>
-    if env m ≠ 1 then resolve (refused ()) env else .yield d s (env.set m (-1))
+    if env m = 0 then resolve (refused ()) env else .yield (.req m d) s (env.set m (-1))
   | .ret v s, env => .ret v s env
   | .raise e s, env => .raise e s env
 
@@ -102,7 +111,7 @@ inductive CSt (σ : Type) where
   | done (s : σ)      -- finished; `s` = the body's final state (its side effects)
 
 inductive SOut where
-  | yield (y : Val)
+  | yield (y : YV)
   | ret (v : Val)
   | raise (e : Exc)
 deriving Repr, DecidableEq, Inhabited
@@ -162,16 +171,22 @@ structure Sys (c : SBody) where
 /-- What a call (`aawait(...)` etc., itself a coroutine) does when activated: it is suspended
     with `y` passed to whoever drives it, or it finished. -/
 inductive CallOut where
-  | pending (y : Val)
+  | pending (y : YV)
   | returned (v : Val)
   | raised (e : Exc)
 deriving Repr, DecidableEq, Inhabited
 
-/-- top of `while True:` with `out_value = y` (lines 87-92):
-    `if self.state == -1: self.state = 1; raise OOBData(out_value)` (then `finally: state = 0`),
-    else suspend in `in_value = yield out_value`. -/
-def relayTop {c : SBody} (m : MonId) (y : Val) (cs : CSt c.σ) (env : Env) : Sys c × CallOut :=
-  if env m = -1 then (⟨cs, (env.set m 1).set m 0⟩, .raised (.oobData y))
+/-- top of `while True:` with `out_value = y` (lines 99-108):
+    `if self.state == -1: self.state = 1; if isinstance(out_value, _OOBRequest) and
+    out_value.monitor is self: raise OOBData(out_value.data)` (then `finally: state = 0`); in every
+    other case (a left-over -1 has just been reset) suspend in `in_value = yield out_value`. -/
+def relayTop {c : SBody} (m : MonId) (y : YV) (cs : CSt c.σ) (env : Env) : Sys c × CallOut :=
+  if env m = -1 then
+    match y with
+    | .req m' d =>
+      if m' = m then (⟨cs, (env.set m 1).set m 0⟩, .raised (.oobData d))
+      else (⟨cs, env.set m 1⟩, .pending y)
+    | .plain _ => (⟨cs, env.set m 1⟩, .pending y)
   else (⟨cs, env⟩, .pending y)
 
 /-- after `out_value = coro.send(in_value)` / `coro.throw(exc)` inside the loop (lines 97-106):
@@ -316,9 +331,9 @@ def CallOut.toResume : CallOut → Resume
 
 /-- run the parent up to its next suspension -/
 def nestRun (p : PBody) (c : SBody) : PStep p.σ → CSt c.σ → Env → SRes (NSt p.σ c.σ)
-  | .yield y s, cc, env => .yield y (.at s cc) env
+  | .yield y s, cc, env => .yield (.plain y) (.at s cc) env
   | .oob m d s refused, cc, env =>
-    if env m ≠ 1 then nestRun p c (refused ()) cc env else .yield d (.at s cc) (env.set m (-1))
+    if env m = 0 then nestRun p c (refused ()) cc env else .yield (.req m d) (.at s cc) (env.set m (-1))
   | .sub m op s k, cc, env =>
     match callStart m op (⟨cc, env⟩ : Sys c) with
     | (⟨cc', env'⟩, .pending y) => .yield y (.inSub m op s k cc') env'
